@@ -15,6 +15,9 @@ import (
 
 const verifRoot = "/verif"
 
+// outRoot: where evidence and replay files go (GOVC_OUT redirects them for selftests on scratch copies).
+var outRoot = envOr("GOVC_OUT", verifRoot)
+
 type KnownFinding struct {
 	Property   string `json:"property"`
 	Obligation string `json:"obligation"`
@@ -185,7 +188,7 @@ func cmdCheck(args []string) int {
 		order = append(order, o2...)
 	}
 	findings := loadKnownFindings()
-	replayDir := filepath.Join(verifRoot, "replays", prop)
+	replayDir := filepath.Join(outRoot, "replays", prop)
 	os.MkdirAll(replayDir, 0o755)
 
 	var violations []string
@@ -222,6 +225,29 @@ func cmdCheck(args []string) int {
 			for _, o := range r.Obls {
 				out.byName[o.Name] = o
 			}
+		}
+		// functions the sweep cannot decide without help carry light contracts (tag C09c: preconditions taken
+		// from their call sites and loop invariants); they are verified like any other contract and excluded
+		// from the sweep
+		e2, o2 := loadExpected("C09c")
+		if tier == "thorough" {
+			e3, o3 := loadExpected("C09c.thorough")
+			for k := range e3 {
+				e2[k] = true
+			}
+			o2 = append(o2, o3...)
+		}
+		for k := range e2 {
+			expected[k] = true
+		}
+		order = append(order, o2...)
+		out2 := runProperty(w, "C09c", quickSec, fullSec, e2)
+		out.results = append(out.results, out2.results...)
+		for k, v := range out2.fnErr {
+			out.fnErr[k] = v
+		}
+		for k, v := range out2.byName {
+			out.byName[k] = v
 		}
 	} else {
 		out = runProperty(w, prop, quickSec, fullSec, expected)
@@ -585,9 +611,9 @@ func writeEvidence(prop, tier string, seed int, w *World, out *checkOutcome, exp
 		"wall_s":      wall,
 		"violations":  nviol,
 	}
-	os.MkdirAll(filepath.Join(verifRoot, "evidence"), 0o755)
+	os.MkdirAll(filepath.Join(outRoot, "evidence"), 0o755)
 	b, _ := json.MarshalIndent(ev, "", " ")
-	os.WriteFile(filepath.Join(verifRoot, "evidence", prop+".json"), b, 0o644)
+	os.WriteFile(filepath.Join(outRoot, "evidence", prop+".json"), b, 0o644)
 }
 
 func kfDischarged(known []string) int { return len(known) }
